@@ -20,6 +20,15 @@
 (*  search    - refined vertices within 1/den of the true transition        *)
 (*  interior  - reported interior point is on the contained side, within    *)
 (*              2/den of the transition                                     *)
+(*                                                                         *)
+(* Coarse-to-fine runs on solids with features the pre-pass may miss carry  *)
+(* margin16 > 0 and coarse (the pre-pass mesh vertices in units of 1/16).   *)
+(* The documented filter is "coarse mesh dilated by 2*sqrt(3)*bigDelta +    *)
+(* extraSpace": a fine cell is certainly kept when some pre-pass vertex is  *)
+(* within that (Chebyshev) distance of the cell, because every block's box  *)
+(* contains its cells.  The clauses are decided only when that holds for    *)
+(* every cell the surface passes through (Covered); otherwise the caller    *)
+(* asked for too little extraSpace and the record is undecided (NOTE).      *)
 (***************************************************************************)
 EXTENDS Lattice3, Json
 
@@ -52,7 +61,14 @@ Tn(code) == LET lo == Lo(code)[EA(code) + 1]
                 n  == R.n[EA(code) + 1]
             IN IF lo = 0 THEN R.den ELSE IF lo = n THEN 0 ELSE R.tnum
 
+MixedCells == {c \in Cells : \E k \in 1..7 :
+                  In(<<c[1] + (k % 2), c[2] + ((k \div 2) % 2), c[3] + (k \div 4)>>) # In(c)}
+Near(c, v) == \A a \in 1..3 : v[a] >= 16 * c[a] - R.margin16 /\ v[a] <= 16 * (c[a] + 1) + R.margin16
+Covered == \A c \in MixedCells : \E i \in 1..Len(R.coarse) : Near(c, R.coarse[i])
+Decided == R.margin16 = 0 \/ Covered
+
 Holds(c) ==
+    IF ~Decided /\ c # "panic" THEN TRUE ELSE
     CASE c = "panic"    -> R.panic = ""
       [] c = "snap"     -> R.unsnap = 0
       [] c = "nodup"    -> Cardinality(Obs) = Len(R.tris)
@@ -75,5 +91,6 @@ Fails == {c \in Clauses : ~Holds(c)}
 Init == rec \in 1..Len(Recs) /\ done = FALSE
 Next == /\ ~done /\ done' = TRUE /\ UNCHANGED rec
         /\ \A c \in Fails : PrintT(<<"REJECT", R.id, 0, c>>)
+        /\ Decided \/ PrintT(<<"NOTE", R.id, "undecided">>)
 Spec == Init /\ [][Next]_<<rec, done>>
 =============================================================================
